@@ -23,6 +23,16 @@ BUDGET = {"quick": 170, "thorough": 1200}
 
 PROBE_A = os.path.join(core.BUILD, "probe", "debug", "libprobe.so")
 PROBE_B = os.path.join(core.BUILD, "probe_b", "debug", "libprobe.so")
+PROBE_L = os.path.join(core.BUILD, "probe_lazy", "debug", "libprobe.so")
+
+# symbol names around the 64-character mark (the probe exports the first three; the fourth is absent although its
+# 63-character prefix is exported)
+P63 = "probe_long_" + "x" * 52
+LONG_SYMS = {"long63": P63, "long70": P63 + "yyyyyyy", "long71": P63 + "zzzzzzzz", "long_absent64": P63 + "q"}
+
+
+def real_sym(sym):
+    return LONG_SYMS.get(sym, sym)
 
 # kind -> list of (instruction, source text, echo rendering, print rendering)
 VALUES = {
@@ -53,6 +63,8 @@ def lib_path(lib):
             "missing_bs": "./lib/vendor\\nolib.so",
             # names that do not end in the platform's extension: a versioned library that exists, and two names that do
             # not exist although a sibling with the same stem and `.so` does
+            # a library with one lazily bound reference to an optional helper that is not installed
+            "lazy": "./lib/libprobe_l.so",
             "versioned": "./lib/libprobe_v.so.1", "missing_dll": "./lib/libprobe_a.dll", "missing_noext": "./lib/libprobe_a"}[lib]
 
 
@@ -69,16 +81,18 @@ def build_program(case):
         sym = case["nested"]["sym"]
         L += ["function cb", '\targ "0"', '\tstore "x"', '\tload "x"',
               "\tcall_lib %s %s" % (hrb_quote("./lib/libprobe_a.so"), sym), "\tret", "end"]
-    L.append("function __module__")
+    depth = case.get("depth", 0)
+    # the calls run `depth` frames below the module: a chain of functions d1 .. d<depth>, the last one calling `body`
+    L.append("function body" if depth else "function __module__")
     for i, c in enumerate(case["calls"]):
         L += ['\tmake_str "before %d"' % i, '\tprintn "*"', "\tvoid"]
         exp.append("before %d" % i)
         for (k, j) in c["args"]:
             ins, src = VALUES[k][j][0], VALUES[k][j][1]
             L.append("\t%s %s" % (ins, hrb_quote(src)))
-        L.append("\tcall_lib %s %s" % (hrb_quote(lib_path(c["lib"])), c["sym"]))
+        L.append("\tcall_lib %s %s" % (hrb_quote(lib_path(c["lib"])), real_sym(c["sym"])))
         L += ['\tprintn "*"', "\tvoid"]
-        tag = {"a": "A", "b": "B", "bare": "A", "bs": "B", "versioned": "B"}.get(c["lib"])
+        tag = {"a": "A", "b": "B", "bare": "A", "bs": "B", "versioned": "B", "lazy": "L"}.get(c["lib"])
         fault = c.get("fault")
         if c["lib"] == "missing":
             fail = {"at": i, "needle": "nonexistent_probe.so"}
@@ -90,6 +104,8 @@ def build_program(case):
             fail = {"at": i, "needle": os.path.basename(lib_path(c["lib"]))}
         elif c["sym"] == "probe_absent":
             fail = {"at": i, "needle": "probe_absent"}
+        elif c["sym"] == "long_absent64":
+            fail = {"at": i, "needle": real_sym("long_absent64")}
         elif fault == "dlsym_null":
             fail = {"at": i, "needle": c["sym"]}
         elif c["sym"] == "probe_raise":
@@ -100,6 +116,8 @@ def build_program(case):
             break
         if c["sym"] == "probe_echo":
             exp.append(describe(tag, c["args"]))
+        elif c["sym"] in ("long63", "long70", "long71"):
+            exp.append(c["sym"] + " " + describe(tag, c["args"]))
         elif c["sym"] == "probe_none":
             exp.append("probe_none " + describe(tag, c["args"]))
             exp.append("")
@@ -130,6 +148,15 @@ def build_program(case):
                 exp.append("[" + ", ".join(str(v * 10) for v in n["list"]) + "]")
             L += ['\tmake_str "after %d"' % i, '\tprintn "*"', "\tvoid"]
             exp.append("after %d" % i)
+    if depth:
+        L += ["\tvoid", "\tret", "end"]
+        for k in range(depth, 0, -1):
+            callee = "body" if k == depth else "d%d" % (k + 1)
+            L += ["function d%d" % k, '\tmake_function "main.mmm#%s"' % callee, '\tstore_fast "#1"', '\tload_fast "#1"', "\tcall", "\tvoid",
+                  '\tmake_str "back %d"' % k, '\tprintn "*"', "\tvoid", "\tvoid", "\tret", "end"]
+            if not fail:
+                exp.append("back %d" % k)
+        L += ["function __module__", '\tmake_function "main.mmm#d1"', '\tstore_fast "#1"', '\tload_fast "#1"', "\tcall", "\tvoid"]
     L += ["\tret_mod" if case.get("ret_mod") else "\tret", "end"]
     return "\n".join(L) + "\n", exp, fail
 
@@ -209,14 +236,18 @@ def gen_cases(tier, seed):
         calls = []
         for _ in range(rng.range(1, 4)):
             args = [(k, rng.below(len(VALUES[k]))) for k in [rng.choice(KINDS) for _ in range(rng.range(0, 6))]]
-            sym = rng.weighted([("probe_echo", 5), ("probe_none", 2), ("probe_first", 2), ("probe_last", 2), ("probe_raise", 1), ("probe_absent", 1)])
-            lib = rng.weighted([("a", 5), ("b", 5), ("bare", 2), ("missing", 1), ("bs", 2), ("missing_bs", 1), ("versioned", 2), ("missing_dll", 1), ("missing_noext", 1)])
+            sym = rng.weighted([("probe_echo", 5), ("probe_none", 2), ("probe_first", 2), ("probe_last", 2), ("probe_raise", 1), ("probe_absent", 1),
+                                ("long63", 1), ("long70", 1), ("long71", 1), ("long_absent64", 1)])
+            lib = rng.weighted([("a", 5), ("b", 5), ("bare", 2), ("lazy", 2), ("missing", 1), ("bs", 2), ("missing_bs", 1), ("versioned", 2), ("missing_dll", 1), ("missing_noext", 1)])
             if sym in ("probe_first", "probe_last") and not args and rng.chance(2, 3):
                 args = [("int", 0)]
             calls.append({"lib": lib, "sym": sym, "args": args})
         case = {"prop": PROP, "id": "h%d" % n, "batch": "histories", "calls": calls, "plan": mk_plan(rng, rng.chance(1, 2)),
                 "gc": "%d:%d" % (rng.below(1 << 20), rng.choice([10000, 100000, 1000000])) if rng.chance(1, 2) else None,
                 "ret_mod": rng.chance(1, 2)}
+        if rng.chance(1, 3):
+            # how many frames lie between the module and the calls
+            case["depth"] = rng.choice([1, 2, 5, 11, 12, 13, 14, 20, 23, 24, 25, 31, 40])
         if rng.chance(1, 4):
             lst = [rng.choice([1, 3, 5, 2, 4]) for _ in range(rng.range(1, 4))]
             case["nested"] = {"sym": "probe_raise_on_two", "list": lst, "via": "map"}
@@ -234,6 +265,7 @@ def run_case(case):
     os.symlink(PROBE_B, os.path.join(world, "lib", "libprobe_b.so"))
     os.symlink(PROBE_B, os.path.join(world, "lib", "plug\\libprobe.so"))
     os.symlink(PROBE_B, os.path.join(world, "lib", "libprobe_v.so.1"))
+    os.symlink(PROBE_L, os.path.join(world, "lib", "libprobe_l.so"))
     os.makedirs(os.path.join(world, "lib", "vendor"))
     os.symlink(PROBE_A, os.path.join(world, "lib", "vendor", "nolib.so"))      # the look-alike decoy
     os.mkdir(os.path.join(world, "search"))
@@ -246,7 +278,7 @@ def run_case(case):
     def finish(p_list):
         s = core.stats_of(p_list, [plan.get("rules", [])] * len(p_list))
         s["hash_seeds"] = [plan["seed"]]
-        s["shape"] = core.shape_hash([(c["lib"], c["sym"], c.get("fault"), c["args"]) for c in case["calls"]], case.get("nested"),
+        s["shape"] = core.shape_hash([(c["lib"], c["sym"], c.get("fault"), c["args"]) for c in case["calls"]], case.get("nested"), case.get("depth", 0),
                                      [(r["call"], r["act"]) for r in plan["rules"]])
         s["nontrivial"] = len(case["calls"]) >= 1
         s["sample"] = {"calls": [(c["lib"], c["sym"], c.get("fault"), [VALUES[k][j][2] for k, j in c["args"]]) for c in case["calls"]],
@@ -256,6 +288,12 @@ def run_case(case):
             pr["history_ends_in_fault"] = 1
         if case.get("nested"):
             pr["call_lib_inside_list_callback"] = 1
+        if case.get("depth", 0) >= 13 and fail:
+            pr["fault_below_13_or_more_frames"] = 1
+        if any(c["lib"] == "lazy" for c in case["calls"]):
+            pr["library_with_unresolved_lazy_reference"] = 1
+        if any(c["sym"].startswith("long") for c in case["calls"]):
+            pr["symbol_name_of_63_or_more_characters"] = 1
         if any(c["lib"] == "bare" for c in case["calls"]):
             pr["library_found_through_search_path"] = 1
         s["probes"] = pr
@@ -325,6 +363,12 @@ def shrink(case):
         c = copy.deepcopy(case)
         c["gc"] = None
         yield c
+    if case.get("depth"):
+        for d in (0, case["depth"] // 2, case["depth"] - 1):
+            if d < case["depth"]:
+                c = copy.deepcopy(case)
+                c["depth"] = d
+                yield c
 
 
 def known_finding(case, res):
